@@ -257,21 +257,38 @@ pub(crate) fn is_farm_expired(
     env: &Env,
     config: &Config,
 ) -> Result<bool, ContractError> {
+    // an end epoch at the very limit must produce an error like any other unrepresentable epoch,
+    // not abort the caller
+    let epoch_after_end =
+        farm.preliminary_end_epoch
+            .checked_add(1u64)
+            .ok_or(ContractError::InvalidEpoch {
+                which: "end".to_string(),
+            })?;
+
     let epoch_response: EpochResponse = deps
         .querier
         // query preliminary_end_epoch + 1 because the farm is preliminary ending at that epoch, including it.
         .query_wasm_smart(
             config.epoch_manager_addr.to_string(),
             &QueryMsg::Epoch {
-                id: farm.preliminary_end_epoch + 1u64,
+                id: epoch_after_end,
             },
         )?;
 
     let farm_ending_at = epoch_response.epoch.start_time;
 
+    // a farm whose expiration instant lies beyond the representable time has not reached it
+    let expiration_passed = config
+        .farm_expiration_time
+        .checked_mul(1_000_000_000u64)
+        .and_then(|nanos| farm_ending_at.nanos().checked_add(nanos))
+        .map(|expires_at| expires_at < env.block.time.nanos())
+        .unwrap_or(false);
+
     Ok(
         farm.farm_asset.amount.saturating_sub(farm.claimed_amount) == Uint128::zero()
-            || farm_ending_at.plus_seconds(config.farm_expiration_time) < env.block.time,
+            || expiration_passed,
     )
 }
 
